@@ -599,13 +599,14 @@ def MAX_QUERY_DEPTH : Nat := 8
 /-- `DepthTracker::is_exhausted` -/
 def depthExhausted (d : Nat) : Bool := d + 1 ≥ MAX_QUERY_DEPTH
 
-/-- what `handle_noerror` makes of one upstream response for `(name, qtype)` -/
+/-- what `handle_noerror` makes of one upstream response for `(name, qtype)`; `preserved` says
+whether CNAME records of earlier hops have been accumulated (`preserved_records` non-empty) -/
 inductive StubStep where
-  /-- records of the requested type were found (for the query name or the end of the alias chain) -/
+  /-- `Records::Exists` -/
   | found
-  /-- the answer section aliases the name to `target` and carries no data for it -/
+  /-- `Records::CnameChain`: ask for `target` next -/
   | alias (target : Name)
-  /-- nothing usable / upstream error -/
+  /-- `NoRecordsFound` / upstream error -/
   | nothing
 
 /-- the `fold` over the answer section in `handle_noerror`: follow CNAMEs that continue the chain -/
@@ -616,38 +617,40 @@ def foldCnames (search : Name) (was : Bool) : List Record → Name × Bool
     | .cname t => if search.eq r.name then foldCnames t true rs else foldCnames search was rs
     | _ => foldCnames search was rs
 
-def stubClassify (q : Query) (up : Except Err Response) : StubStep :=
+/-- the decision at the end of `handle_noerror` -/
+def stubDecide (found was preserved : Bool) (depth : Nat) (search : Name) : StubStep :=
+  if found && (!was || !preserved) then .found
+  else if was && !depthExhausted depth then .alias search
+  else .nothing
+
+def stubClassify (q : Query) (preserved : Bool) (depth : Nat) (up : Except Err Response) : StubStep :=
   match up with
   | .error _ => .nothing
   | .ok r =>
     match fromResponse q r with
     | .error _ => .nothing
     | .ok r =>
-      let (search, was) :=
+      let sw :=
         if q.qtype == T_ANY || q.qtype == T_CNAME then (q.name, false)
         else foldCnames q.name false r.answers
       let found := r.all.any fun x =>
-        (q.qtype == T_ANY || x.rtype == q.qtype) && (search.eq x.name || q.name.eq x.name)
-      if found then .found
-      else if was then .alias search
-      else .nothing
+        (q.qtype == T_ANY || x.rtype == q.qtype) && (sw.1.eq x.name || q.name.eq x.name)
+      stubDecide found sw.2 preserved depth sw.1
 
 /-- `inner_lookup` without the cache: returns (answered?, number of upstream queries).  The
 recursion is on the distance of the `DepthTracker` to `MAX_QUERY_DEPTH`. -/
-def stubLookup (up : Query → Except Err Response) : Nat → Query → Nat → Bool × Nat
-  | 0, _, _ => (false, 0)
-  | f + 1, q, depth =>
-    match stubClassify q (up q) with
+def stubLookup (up : Query → Except Err Response) : Nat → Query → Nat → Bool → Bool × Nat
+  | 0, _, _, _ => (false, 0)
+  | f + 1, q, depth, preserved =>
+    match stubClassify q preserved depth (up q) with
     | .found => (true, 1)
     | .nothing => (false, 1)
     | .alias target =>
-      if depthExhausted depth then (false, 1)
-      else
-        let (ok, n) := stubLookup up f ⟨target, q.qtype⟩ (depth + 1)
-        (ok, n + 1)
+      let r := stubLookup up f ⟨target, q.qtype⟩ (depth + 1) true
+      (r.1, r.2 + 1)
 
 /-- `CachingClient::lookup` -/
 def stubResolve (up : Query → Except Err Response) (q : Query) : Bool × Nat :=
-  stubLookup up MAX_QUERY_DEPTH q 0
+  stubLookup up MAX_QUERY_DEPTH q 0 false
 
 end HickoryVerif.Recursor
